@@ -4,6 +4,8 @@ import Rpki.Props.C17
 #print axioms Rpki.C17.encode_tag_width
 #print axioms Rpki.C17.decode_sound
 #print axioms Rpki.C17.validity_iff
+#print axioms Rpki.C17.calendar_order_is_instant_order
+#print axioms Rpki.C17.validity_iff_calendar
 #print axioms Rpki.C17.trim_inter
 #print axioms Rpki.C17.serial_fromSlice
 #print axioms Rpki.C17.serial_dec_roundtrip
